@@ -55,6 +55,8 @@ type Monitors struct {
 	leadGains    map[[2]int]int
 	storedIDs    map[string]bool // payload ids ever stored on any server
 	taint        string
+	lease        *leaseState
+	prevote      *prevoteState
 }
 
 func newMonitors(w *World) *Monitors {
@@ -632,6 +634,7 @@ func (m *Monitors) AtQuiescent() {
 		m.checkLeaderCompleteness(n, "while leader")
 	}
 	m.checkLogs()
+	m.timedChecks()
 }
 
 // checkLeaderCommit: C05 at a leader's report of commit index ci.
@@ -786,6 +789,7 @@ func (m *Monitors) AtEnd() {
 	if w.internalErr != "" {
 		return
 	}
+	m.timedEnd()
 	// C17: no client stuck for ever at a state where nothing can happen any more
 	if w.endWhy == "quiescent" {
 		for _, c := range w.calls {
